@@ -86,6 +86,61 @@ type Client struct {
 	NextID     uint64
 	pipe       net.Conn
 	Headers    map[string]string
+	stallMu    sync.Mutex
+	stall      chan struct{} // non-nil: the client has stopped reading its socket
+}
+
+// stallCh returns the channel the reader waits on while the client does not read.
+func (c *Client) stallCh() chan struct{} {
+	c.stallMu.Lock()
+	defer c.stallMu.Unlock()
+	return c.stall
+}
+
+// setStall makes the client stop (or go on) reading its socket.
+func (c *Client) setStall(on bool) {
+	c.stallMu.Lock()
+	defer c.stallMu.Unlock()
+	if on && c.stall == nil {
+		c.stall = make(chan struct{})
+	} else if !on && c.stall != nil {
+		close(c.stall)
+		c.stall = nil
+	}
+}
+
+// waitStall parks a client's reader while the client does not read (a named
+// function so that the quiescence detector knows the wait).
+//
+//go:noinline
+func waitStall(ch chan struct{}) { <-ch }
+
+// anyStalled reports whether some client is not reading its socket (the gateway
+// may then sit in a write to it, which is no sign of a stall of the gateway).
+func (w *World) anyStalled() bool {
+	for _, c := range w.Clients {
+		if c.stallCh() != nil {
+			return true
+		}
+	}
+	return false
+}
+
+// noteStalled records which clients are not reading when a fault strikes.
+func (w *World) noteStalled() {
+	w.StalledAtStop = map[int]bool{}
+	for _, c := range w.Clients {
+		if c.stallCh() != nil {
+			w.StalledAtStop[c.Idx] = true
+		}
+	}
+}
+
+// resumeAll lets every client read again.
+func (w *World) resumeAll() {
+	for _, c := range w.Clients {
+		c.setStall(false)
+	}
 }
 
 // HTTPCall is one HTTP request issued through Service.ServeHTTP.
@@ -121,30 +176,32 @@ type World struct {
 	HTTP    []*HTTPCall
 	httpMu  sync.Mutex
 
-	cidOwner    map[string]int // cid -> actor (client idx, or 1000+http id)
-	absorbed    int
-	newActor    int // actor that receives the next unknown conn.<cid> subscription
-	Script      []Op
-	SymScript   []Op // Script with connection ids in symbolic form (what replay files hold)
-	probeWS     *websocket.Conn
-	probePipe   net.Conn
-	Race        bool
-	stats       Stats
-	Failed      string // harness-level failure (inconclusive)
-	Deadlock    string
-	Stalled     bool
-	stopped     bool
-	StopErrs    []string
-	stopCh      <-chan error
-	StopSeen    []string
-	Port        int               // real API port (Listen)
-	MetricsPort int               // real metrics port (ListenMetrics)
-	qevSubjects map[string]string // query event subject -> resource name
-	Monitors    []Monitor
-	tokens      map[int][]string // actor -> token history (JSON text), "" = none
-	closedAt    map[int]int
-	started     bool
-	Journal     *os.File // per-op journal for crash attribution
+	cidOwner  map[string]int // cid -> actor (client idx, or 1000+http id)
+	absorbed  int
+	newActor  int // actor that receives the next unknown conn.<cid> subscription
+	Script    []Op
+	SymScript []Op // Script with connection ids in symbolic form (what replay files hold)
+	probeWS   *websocket.Conn
+	probePipe net.Conn
+	Race      bool
+	stats     Stats
+	Failed    string // harness-level failure (inconclusive)
+	Deadlock  string
+	Stalled   bool
+	stopped   bool
+	StopErrs  []string
+	stopCh    <-chan error
+	StopSeen  []string
+	// StalledAtStop: clients that were not reading when the last fault struck
+	StalledAtStop map[int]bool
+	Port          int               // real API port (Listen)
+	MetricsPort   int               // real metrics port (ListenMetrics)
+	qevSubjects   map[string]string // query event subject -> resource name
+	Monitors      []Monitor
+	tokens        map[int][]string // actor -> token history (JSON text), "" = none
+	closedAt      map[int]int
+	started       bool
+	Journal       *os.File // per-op journal for crash attribution
 }
 
 type nullLogger struct {
@@ -429,6 +486,7 @@ func (w *World) Settle() bool {
 	if w.Failed != "" || w.Deadlock != "" {
 		return false
 	}
+	stalledClients = w.anyStalled()
 	r := w.settleWait(settleLimit)
 	if !r.ok {
 		if r.deadlock {
@@ -647,6 +705,14 @@ func (w *World) execOne(op Op) {
 		w.doLose()
 	case "start":
 		w.doStart()
+	case "cstall":
+		if c := w.client(op.C); c != nil {
+			c.setStall(true)
+		}
+	case "cresume":
+		if c := w.client(op.C); c != nil {
+			c.setStall(false)
+		}
 	case "restart":
 		// Stop and Start back to back: whatever the stopped run still has to finish
 		// finishes while the new run is up
@@ -729,6 +795,9 @@ func (w *World) doConnect(op Op) {
 		w.logMQ(LogEntry{Kind: "dial", Conn: idx, Code: c.DialStatus, Header: c.DialHeader})
 		close(ready)
 		for {
+			if ch := c.stallCh(); ch != nil {
+				waitStall(ch)
+			}
 			_, data, err := ws.ReadMessage()
 			if err != nil {
 				c.EOF = true
@@ -961,6 +1030,7 @@ func (w *World) doStop() {
 	if w.stopped {
 		return
 	}
+	w.noteStalled()
 	w.stopped = true
 	w.started = false
 	ch := w.stopCh
@@ -975,6 +1045,10 @@ func (w *World) doStop() {
 		w.Deadlock = "Stop did not return within 30s"
 		return
 	}
+	// Stop has returned: whatever a client that was not reading finds on its
+	// socket from here on was written to a connection Stop should have closed
+	w.logMQ(LogEntry{Kind: "stop_done"})
+	w.resumeAll()
 	if ch != nil {
 		select {
 		case err, ok := <-ch:
@@ -997,6 +1071,7 @@ func (w *World) doLose() {
 	if !w.started {
 		return
 	}
+	w.noteStalled()
 	ch := w.stopCh
 	w.mq.Lose()
 	w.stopped = true
@@ -1011,6 +1086,8 @@ func (w *World) doLose() {
 		} else {
 			w.StopSeen = append(w.StopSeen, "<nil>")
 		}
+		w.logMQ(LogEntry{Kind: "stop_done"})
+		w.resumeAll()
 	case <-time.After(15 * time.Second):
 		// (Stop itself waits at most 3 s for the messaging client and 5 s for the HTTP server)
 		w.Deadlock = "the gateway did not stop within 15s after the messaging connection was lost"
@@ -1032,6 +1109,7 @@ func (w *World) doStart() {
 
 // Shutdown stops the gateway and closes all clients (end of a case).
 func (w *World) Shutdown() {
+	w.resumeAll()
 	if w.probeWS != nil {
 		w.probeWS.Close()
 	}
